@@ -272,7 +272,8 @@ pub fn run_case(u: &Universe, case: &Value) -> Vec<Value> {
     let mut evs = vec![];
     for wrap in case["wraps"].as_array().unwrap() {
         let wrap = wrap.as_str().unwrap();
-        let ds = wrap_str(u, wrap, &ms_str);
+        let ds = crate::sat::desc_text(u, wrap, ast, ctx);
+        let _ = &ms_str;
         let d = match catch_unwind(|| Desc::from_str(&ds)) {
             Ok(Ok(d)) => d,
             _ => continue,
